@@ -16,7 +16,7 @@ import (
 // siblings: the box then reaches a consumer that does not expect it.
 func c01AtomicInlines(c *core.Check) {
 	p := c.Prog
-	r := c.Rule("R15", "the atomic inline containers are treated alike: in html/layout and html/document every disjunction of box-class tests on one box that names InlineBlockT together with InlineFlexT or InlineGridT names all three (a class left out of the stacking dispatch reaches the panicking default of drawInlineLevel); in html/boxes every disjunction of exact box-type comparisons that accepts TableT accepts InlineTableT", 6)
+	r := c.Rule("R15", "the atomic inline containers are treated alike: in html/layout and html/document every disjunction of box-class tests on one box that names InlineBlockT together with InlineFlexT or InlineGridT names all three (a class left out of the stacking dispatch reaches the panicking default of drawInlineLevel); in html/boxes every disjunction of exact box-type comparisons that accepts TableT accepts InlineTableT", 4)
 	n := 0
 	for _, rel := range []string{"html/layout", "html/document"} {
 		pk := p.ByPath[rel]
